@@ -10,6 +10,7 @@ Driver for C19 (spike encoders).  One request per line; every encoder request is
   poion  <steps> <xs> <k0> <freshs> <meta>                     poisson_interval_online
   bern   <steps> <dt> <xs> <U> <meta>                          homogenous_poisson_bernoulli_approx(_online)
   berninh <dt> <X> <U> <meta>                                  inhomogeneous_poisson_bernoulli_approx
+  bern32 / berninh32                                            the same on float32 tensors (Float32 model)
   encnew <kind> <steps> <dt> <freq> <refrac|N> <comp>          constructor  (kind hp | approx | interval)
   encset <steps|dt|freq|refrac|comp> <value|N>                 setter
 
@@ -204,6 +205,38 @@ def doBernInh (dt X U : String) : Option String := do
     s!"steps={X.length} n={n} silentcells={showRows mustSilent} gap=1 mok={if ok then "T" else "F"} Q=" ++
     (if diffCells m q == 0 then "same" else s!"diff:{diffCells m q}"))
 
+/-- float32 variants: values arrive as doubles that are exactly float32 numbers; `dt` is the Python
+double, rounded to float32 as torch does. -/
+def doBern32 (steps dt xs U : String) : Option String := do
+  let steps ← parseNat? steps
+  let dt ← parseDbl? dt
+  let xs ← parseList? parseDbl? xs
+  let U ← parseLists? parseDbl? U
+  if U.length ≠ steps ∨ U.any (·.length ≠ xs.length) then none else
+  if xs.any (fun x => x.f.toFloat32.toFloat != x.f) ∨ U.any (·.any fun u => u.f.toFloat32.toFloat != u.f) then none else
+  let dt32 := dt.f.toFloat32
+  let dtq := match bitsToExt dt32.toFloat.toBits with | .fin q => q | _ => dt.q
+  let m := bernoulliTF32 dt32 (xs.map (·.f.toFloat32)) (U.map (·.map (·.f.toFloat32)))
+  let q := bernoulliT dtq (xs.map (·.q)) (U.map (·.map (·.q)))
+  some ("M " ++ showRows m ++ " || S " ++ showS steps xs.length (xs.map fun x => x.q == 0) (some 1) (some m) (some q))
+
+def doBernInh32 (dt X U : String) : Option String := do
+  let dt ← parseDbl? dt
+  let X ← parseLists? parseDbl? X
+  let U ← parseLists? parseDbl? U
+  if U.length ≠ X.length ∨ (U.zip X).any (fun (u, x) => u.length ≠ x.length) then none else
+  if X.any (·.any fun x => x.f.toFloat32.toFloat != x.f) ∨ U.any (·.any fun u => u.f.toFloat32.toFloat != u.f) then none else
+  let n := (X.head?.map (·.length)).getD 0
+  let dt32 := dt.f.toFloat32
+  let dtq := match bitsToExt dt32.toFloat.toBits with | .fin q => q | _ => dt.q
+  let m := bernoulliInhomTF32 dt32 (X.map (·.map (·.f.toFloat32))) (U.map (·.map (·.f.toFloat32)))
+  let q := bernoulliInhomT dtq (X.map (·.map (·.q))) (U.map (·.map (·.q)))
+  let mustSilent := X.map fun row => row.map fun x => x.q == 0
+  let ok := ((m.zip mustSilent).all fun (r, s) => (r.zip s).all fun (b, z) => !(z && b))
+  some ("M " ++ showRows m ++ " || S " ++
+    s!"steps={X.length} n={n} silentcells={showRows mustSilent} gap=1 mok={if ok then "T" else "F"} Q=" ++
+    (if diffCells m q == 0 then "same" else s!"diff:{diffCells m q}"))
+
 /-! ### encoder configuration state -/
 
 structure DState where
@@ -241,6 +274,8 @@ def dstep (st : DState) (line : String) : DState × String :=
   | ["poion", steps, xs, k0, freshs, _meta] => stateless (doPoiOn steps xs k0 freshs)
   | ["bern", steps, dt, xs, U, _meta] => stateless (doBern steps dt xs U)
   | ["berninh", dt, X, U, _meta] => stateless (doBernInh dt X U)
+  | ["bern32", steps, dt, xs, U, _meta] => stateless (doBern32 steps dt xs U)
+  | ["berninh32", dt, X, U, _meta] => stateless (doBernInh32 dt X U)
   | ["encnew", kind, steps, dt, freq, refrac, comp] =>
     let r : Option (Option EncState) := do
       if kind ≠ "hp" ∧ kind ≠ "approx" ∧ kind ≠ "interval" then none
